@@ -629,10 +629,26 @@ impl Xot {
                 }
             }
         }
+        // a generated prefix must not be in use already: not in scope at the
+        // node (it would override a binding names may depend on) and not
+        // declared anywhere below it (it would be shadowed there)
+        let mut used_prefixes: HashSet<PrefixId> = self
+            .namespaces_in_scope(node)
+            .map(|(prefix_id, _)| prefix_id)
+            .collect();
+        for descendant in self.descendants(node) {
+            used_prefixes.extend(self.namespaces(descendant).keys());
+        }
         let mut prefixes_to_add = HashMap::default();
-        for (i, namespace_id) in missing_namespace_ids.iter().enumerate() {
-            let prefix = format!("n{}", i);
-            let prefix_id = self.add_prefix(&prefix);
+        let mut i = 0;
+        for namespace_id in missing_namespace_ids.iter() {
+            let prefix_id = loop {
+                let prefix_id = self.add_prefix(&format!("n{}", i));
+                i += 1;
+                if !used_prefixes.contains(&prefix_id) {
+                    break prefix_id;
+                }
+            };
             prefixes_to_add.insert(prefix_id, namespace_id);
         }
         let mut namespaces = self.namespaces_mut(node);
